@@ -217,6 +217,14 @@ func (h *TwoPartyHandler) canAccept(msg *Message) bool {
 func (h *TwoPartyHandler) Accept(msg *Message) {
 	h.mtx.Lock()
 	defer h.mtx.Unlock()
+	// A malformed message must never crash the party: a panic while decoding or processing it ends the session cleanly.
+	defer func() {
+		if r := recover(); r != nil {
+			if h.err == nil && h.result == nil {
+				h.abort(fmt.Errorf("panic while processing message: %v", r))
+			}
+		}
+	}()
 
 	if !h.canAccept(msg) || h.err != nil || h.result != nil {
 		return
